@@ -943,6 +943,17 @@ func (s *sys) Step(i int) bfs.StepResult {
 	switch mode {
 	case "full":
 		switch {
+		case lenient && hasTwin && c.Op == "Rename" && viewAbs(x.cwd, mc.A) == "/" && viewAbs(x.cwd, mc.B) != "/" &&
+			nr.Kind == "ok" && nt.Kind != "ok":
+			// (round 12) The leniency has two sides - the parent's behaviour, or a root
+			// that refuses - and a success is on neither when the parent refuses: every
+			// name a view can give as destination lies below its own root, and a
+			// directory is never moved below itself (the parent answers EINVAL, or the
+			// error of the destination's directory). A view that reports success has
+			// tied its root into its own subtree.
+			report("outcome", nt.Kind, nr.Kind, "the root of the view was renamed to a name below itself, which the parent refuses on the prefixed paths")
+
+			diverged = true
 		case lenient:
 		case !kindsEqual:
 			kind, want, got := "outcome", nt.Kind, nr.Kind
